@@ -30,7 +30,23 @@ type wcase struct {
 	pan  bool
 }
 
-func writerCases(textLen int, reenter *Op) []wcase {
+func writerCases(textLen int, reenter *Op, thorough bool) []wcase {
+	cs := writerCasesQuick(textLen, reenter)
+	if thorough {
+		// every split point of short texts, and the first and last 16 of long ones
+		for k := 0; k < textLen; k++ {
+			if k >= 16 && k < textLen-16 {
+				continue
+			}
+			cs = append(cs,
+				wcase{fmt.Sprintf("errk@%d", k), WSpec{Kind: "errk", K: k}, k, "the-writers-error", false},
+				wcase{fmt.Sprintf("short@%d", k), WSpec{Kind: "short", K: k}, k, "", false})
+		}
+	}
+	return cs
+}
+
+func writerCasesQuick(textLen int, reenter *Op) []wcase {
 	mid := textLen / 2
 	last := textLen - 1
 	if last < 0 {
@@ -105,12 +121,16 @@ func execRoutes(e *env, op *Op, out *Outcome) {
 
 	// ---- F route, every writer behaviour ----------------------------------
 	reenter := &Op{K: "sprintf", F: "re %v", A: []Val{{K: "int", I: 1}}}
-	for _, wc := range writerCases(len(S.Out), reenter) {
+	for _, wc := range writerCases(len(S.Out), reenter, e.plan.Tier == "thorough") {
 		fop := mk("fprint")
 		spec := wc.spec
 		fop.W = &spec
 		F := e.execOp(&fop)
-		count("F", wc.name)
+		if i := strings.Index(wc.name, "@"); i > 0 && wc.name[i+1] >= '0' && wc.name[i+1] <= '9' {
+			count("F", wc.name[:i]+"@k(all split points)")
+		} else {
+			count("F", wc.name)
+		}
 		out.Extra = append(out.Extra, fmt.Sprintf("F/%s n=%d err=%s writes=%d panic=%v", wc.name, F.N, F.Err, len(F.Writes), F.Panic != ""))
 		if len(F.Writes) != 1 {
 			fail("not-a-single-write", "F/"+wc.name, fmt.Sprintf("the writer saw %d Write calls, want exactly 1", len(F.Writes)))
